@@ -609,16 +609,17 @@ Proof.
     rewrite seq_S, fold_left_app, E. cbn [fold_left Nat.add]. apply stepk; [lia|exact Hk|exact Hinv].
 Qed.
 
-(* (2) digit-grouped branch: the model computes the functional form on top of what res0 held beyond sz_r(0) *)
-Theorem gadget_product_spec_grouped : (2 <= dsize)%nat ->
-  exists res, gadget_product n cols_out R res0 a a_size dsize dnum msize clamp m = Some res /\
+(* (2) digit-grouped branch started from any accumulator content res0 (what the code did BEFORE it zeroed the accumulator, and
+   what the digit loop does in general): the functional form on top of what res0 held beyond sz_r(0) *)
+Theorem gadget_product_from_spec_grouped : (2 <= dsize)%nat ->
+  exists res, gadget_product_from n cols_out R res0 a a_size dsize dnum msize clamp m = Some res /\
     length res = cols_out /\
     forall co, (co < cols_out)%nat -> length (col res co) = R /\
       forall j, (j < R)%nat ->
         lim (col res co) j = padd (if Nat.ltb j (sz_r msize dsize 0) then pzero n else lim (col res0 co) j)
                                   (gp_spec n cin cols_out msize a_size dsize dnum clamp (acol n a) m co j).
 Proof.
-  intros Hd. unfold gadget_product.
+  intros Hd. unfold gadget_product_from.
   destruct (Nat.eqb_spec dsize 0) as [E|_]; [lia|]. destruct (Nat.eqb_spec dsize 1) as [E|_]; [lia|].
   destruct (fold_steps (dsize - 1) ltac:(lia) ltac:(lia)) as [res [E Hinv]].
   replace (S (dsize - 1)) with dsize in * by lia.
@@ -634,13 +635,13 @@ Variable m : pmat.
 Hypothesis Ha : wf_cols n cin a_size a.
 
 (* (2) dsize = 1 : one vmp, every limb of res is written (zero beyond min(R, msize)); res0 is ignored *)
-Theorem gadget_product_spec_flat (R : nat) (res0 : cols_t) :
-  exists res, gadget_product n cols_out R res0 a a_size 1 dnum msize clamp m = Some res /\
+Theorem gadget_product_from_spec_flat (R : nat) (res0 : cols_t) :
+  exists res, gadget_product_from n cols_out R res0 a a_size 1 dnum msize clamp m = Some res /\
     length res = cols_out /\
     forall co, (co < cols_out)%nat -> length (col res co) = R /\
       forall j, (j < R)%nat -> lim (col res co) j = gp_flat n cin cols_out msize a_size dnum (acol n a) m R co j.
 Proof.
-  unfold gadget_product. cbn [Nat.eqb]. eexists; split; [reflexivity|].
+  unfold gadget_product_from. cbn [Nat.eqb]. eexists; split; [reflexivity|].
   destruct Ha as [Hl Hcols].
   unfold vmp_cols. cbv zeta. split; [rewrite map_length, seq_length; reflexivity|].
   intros co Hc. rewrite col_map_seq by exact Hc. split; [apply mk_length|].
@@ -678,25 +679,19 @@ Proof.
 Qed.
 
 Lemma flat_case (dsize R : nat) (res0 : cols_t) : dsize = 1%nat -> (msize <= R)%nat ->
-  exists res, gadget_product n cols_out R res0 a a_size dsize dnum msize clamp m = Some res /\
+  exists res, gadget_product_from n cols_out R res0 a a_size dsize dnum msize clamp m = Some res /\
     length res = cols_out /\
     forall co, (co < cols_out)%nat -> length (col res co) = R /\
       forall j, (j < R)%nat -> lim (col res co) j = gp_spec n cin cols_out msize a_size dsize dnum clamp (acol n a) m co j.
 Proof.
-  intros -> HR. destruct (gadget_product_spec_flat R res0) as [res [E1 [E2 E3]]].
+  intros -> HR. destruct (gadget_product_from_spec_flat R res0) as [res [E1 [E2 E3]]].
   exists res. split; [exact E1|]. split; [exact E2|]. intros co Hc. destruct (E3 co Hc) as [E4 E5].
   split; [exact E4|]. intros j Hj. rewrite (E5 j Hj). apply gp_flat_spec; exact HR.
 Qed.
 End ModelFlat.
 
-Section ModelZero.
-Variables (n cin cols_out msize a_size dsize dnum : nat) (clamp : bool).
-Variable a : cols_t.
-Variable m : pmat.
-Hypothesis Ha : wf_cols n cin a_size a.
-Hypothesis Hd : (1 <= dsize)%nat.
-Hypothesis Hdrop : (dsize - 2 <= msize)%nat.
-
+Section Zcols.
+Variables (n cols_out : nat).
 Lemma nth_repeat_lt {X} (x d : X) k i : (i < k)%nat -> nth i (repeat x k) d = x.
 Proof. revert i; induction k as [|k IH]; intros [|i] H; cbn [repeat nth]; try lia; [reflexivity|apply IH; lia]. Qed.
 
@@ -711,12 +706,22 @@ Proof.
   - intros l Hl. rewrite zcols_limb by assumption. apply pzero_length.
 Qed.
 
+End Zcols.
+
+Section ModelZero.
+Variables (n cin cols_out msize a_size dsize dnum : nat) (clamp : bool).
+Variable a : cols_t.
+Variable m : pmat.
+Hypothesis Ha : wf_cols n cin a_size a.
+Hypothesis Hd : (1 <= dsize)%nat.
+Hypothesis Hdrop : (dsize - 2 <= msize)%nat.
+
 Lemma gp_spec_length co j : length (gp_spec n cin cols_out msize a_size dsize dnum clamp (acol n a) m co j) = n.
 Proof. unfold gp_spec. apply psumf_length. intros. apply gp_term_length. exact Ha. Qed.
 
-(* (2) the entry points start from a zero accumulator of msize limbs: the model IS the functional form *)
-Theorem gadget_product_spec :
-  exists res, gadget_product n cols_out msize (zcols n cols_out msize) a a_size dsize dnum msize clamp m = Some res /\
+(* (2) from a zero accumulator of msize limbs the digit loop IS the functional form *)
+Theorem gadget_product_from_zero_spec :
+  exists res, gadget_product_from n cols_out msize (zcols n cols_out msize) a a_size dsize dnum msize clamp m = Some res /\
     wf_cols n cols_out msize res /\
     forall co j, (co < cols_out)%nat -> (j < msize)%nat ->
       lim (col res co) j = gp_spec n cin cols_out msize a_size dsize dnum clamp (acol n a) m co j.
@@ -729,8 +734,8 @@ Proof.
     exists res. split; [exact E1|]. split; [|exact G].
     split; [exact E2|]. intros co Hc. split; [apply E3; exact Hc|].
     intros j Hj. rewrite G by assumption. apply gp_spec_length.
-  - destruct (gadget_product_spec_grouped n cin cols_out msize a_size dsize dnum clamp a m Ha msize (zcols n cols_out msize)
-                (zcols_wf msize) Hdrop (Nat.le_refl msize) ltac:(lia)) as [res [E1 [E2 E3]]].
+  - destruct (gadget_product_from_spec_grouped n cin cols_out msize a_size dsize dnum clamp a m Ha msize (zcols n cols_out msize)
+                (zcols_wf n cols_out msize) Hdrop (Nat.le_refl msize) ltac:(lia)) as [res [E1 [E2 E3]]].
     assert (G : forall co j, (co < cols_out)%nat -> (j < msize)%nat ->
               lim (col res co) j = gp_spec n cin cols_out msize a_size dsize dnum clamp (acol n a) m co j).
     { intros co j Hc Hj. destruct (E3 co Hc) as [_ E4]. rewrite (E4 j Hj).
@@ -740,6 +745,56 @@ Proof.
     intros j Hj. rewrite G by assumption. apply gp_spec_length.
 Qed.
 End ModelZero.
+
+(* the repaired entry point: Gadget.gadget_product zeroes the accumulator first (acc_start), so its prior content res0 is irrelevant *)
+Section AccStart.
+Lemma acc_start_true n cols_out R msize res0 : acc_start n cols_out R msize true res0 = zcols n cols_out R.
+Proof. reflexivity. Qed.
+
+Lemma acc_start_false n cols_out msize (res0 : cols_t) :
+  length res0 = cols_out -> (forall co, (co < cols_out)%nat -> length (col res0 co) = msize) ->
+  acc_start n cols_out msize msize false res0 = zcols n cols_out msize.
+Proof.
+  intros Hl Hc. unfold acc_start, zcols.
+  apply (nth_ext _ _ [] []); [rewrite map_length, repeat_length; exact Hl|].
+  rewrite map_length. intros co Hco.
+  assert (Hco' : (co < cols_out)%nat) by (rewrite <- Hl; exact Hco).
+  rewrite (nth_map' _ _ _ _ []) by exact Hco. rewrite nth_repeat_lt by exact Hco'.
+  change (nth co res0 []) with (col res0 co). rewrite (Hc co Hco').
+  rewrite Nat.min_id. rewrite <- (Hc co Hco') at 2. rewrite skipn_all. apply app_nil_r.
+Qed.
+
+Theorem acc_start_zero n cols_out msize clamp res0 : acc_shape cols_out msize clamp res0 ->
+  acc_start n cols_out msize msize clamp res0 = zcols n cols_out msize.
+Proof.
+  intros [-> | [Hl Hc]]; [reflexivity|].
+  destruct clamp; [reflexivity|]. apply acc_start_false; assumption.
+Qed.
+
+Corollary gadget_product_is_from_zero n cols_out msize res0 a a_size dsize dnum clamp m : acc_shape cols_out msize clamp res0 ->
+  gadget_product n cols_out msize res0 a a_size dsize dnum msize clamp m
+  = gadget_product_from n cols_out msize (zcols n cols_out msize) a a_size dsize dnum msize clamp m.
+Proof. intros H. unfold gadget_product. rewrite acc_start_zero by exact H. reflexivity. Qed.
+
+Lemma acc_shape_zcols n cols_out msize clamp : acc_shape cols_out msize clamp (zcols n cols_out msize).
+Proof.
+  right. destruct (zcols_wf n cols_out msize) as [Hl Hc]. split; [exact Hl|]. intros co Hco. apply (Hc co Hco).
+Qed.
+
+(* (2) the model IS the functional form, whatever the accumulator held (key-switch mode: any res0; external-product mode: any res0
+   of cols_out columns of msize limbs), every dsize >= 1 *)
+Theorem gadget_product_spec n cin cols_out msize a_size dsize dnum clamp (a : cols_t) (m : pmat) (res0 : cols_t) :
+  wf_cols n cin a_size a -> (1 <= dsize)%nat -> (dsize - 2 <= msize)%nat -> acc_shape cols_out msize clamp res0 ->
+  exists res, gadget_product n cols_out msize res0 a a_size dsize dnum msize clamp m = Some res /\
+    wf_cols n cols_out msize res /\
+    forall co j, (co < cols_out)%nat -> (j < msize)%nat ->
+      lim (col res co) j = gp_spec n cin cols_out msize a_size dsize dnum clamp (acol n a) m co j.
+Proof.
+  intros Ha Hd Hdrop Hs. rewrite gadget_product_is_from_zero by exact Hs.
+  apply gadget_product_from_zero_spec; assumption.
+Qed.
+End AccStart.
+
 
 
 (* ================================================================================================================ *)
